@@ -11,8 +11,8 @@
 (*   logs    branch -> Seq(<<old, new, txid>>)   (txid 0 = no transaction) *)
 (*   staged  <<tx, branch>> -> commit id  (the refs txs/<id>/<branch>)     *)
 (*   status  tx -> "inprogress" | "committed"    (absent = no row)         *)
-(*   commits Seq([tbl, par, tx, src])     the commit objects; the id of a  *)
-(*           commit is its index; objects are content addressed: a commit  *)
+(*   commits id -> [tbl, par, tx, src]    the commit objects;              *)
+(*           objects are content addressed: a commit                       *)
 (*           made by a transaction is determined by the staged commit it   *)
 (*           copies (src), its parent and the transaction, so writing the  *)
 (*           same one again adds nothing; every other commit is unique     *)
@@ -63,13 +63,22 @@ HeadOf(s, b)    == Cur(s.refs, b)
 TxEntries(s, tx, b) == {i \in 1..Len(LogOf(s.logs, b)) : LogOf(s.logs, b)[i][3] = tx}
 Logged(s, tx, b)    == TxEntries(s, tx, b) # {}
 
-(* content addressed store of commit objects: returns <<commits', id>> *)
-FindCommit(cs, c) == {i \in 1..Len(cs) : cs[i] = c}
-AddCommit(cs, c)  == IF FindCommit(cs, c) # {} THEN <<cs, CHOOSE i \in FindCommit(cs, c) : TRUE>>
-                     ELSE <<Append(cs, c), Len(cs) + 1>>
+(* content addressed store of commit objects: returns <<commits', id>>.   *)
+(* Ids are chosen so that the state does not depend on the order in which  *)
+(* a run treats the branches: commits made outside runs are numbered 1, 2, *)
+(* ...; the k-th commit object derived from the staged commit src is       *)
+(* TxBase * src + k.                                                       *)
+TxBase == 1000
+NCommits(cs) == Cardinality(DOMAIN cs)
+FindCommit(cs, c) == {i \in DOMAIN cs : cs[i] = c}
+AddCommit(cs, c)  ==
+  IF FindCommit(cs, c) # {} THEN <<cs, CHOOSE i \in FindCommit(cs, c) : TRUE>>
+  ELSE LET id == TxBase * c.src + 1 + Cardinality({i \in DOMAIN cs : cs[i].tx # 0 /\ cs[i].src = c.src})
+       IN <<Put(cs, id, c), id>>
 (* a commit that nothing else equals (plain commits, staged commits) *)
 FreshCommit(cs, tbl, par) ==
-  <<Append(cs, [tbl |-> tbl, par |-> par, tx |-> 0, src |-> Len(cs) + 1]), Len(cs) + 1>>
+  LET id == 1 + Cardinality({i \in DOMAIN cs : i < TxBase}) IN
+  <<Put(cs, id, [tbl |-> tbl, par |-> par, tx |-> 0, src |-> id]), id>>
 
 -----------------------------------------------------------------------------
 (* operations outside a run (never failure-injected) *)
@@ -187,11 +196,16 @@ Exec(s, op, dev) == UNION {RunAll(c, op.k, op.how) : c \in Begin(s, op.kind, op.
 (* is a behaviour.  An operation that Begin refuses may have touched a      *)
 (* store before refusing (the statement does not forbid it), so with an    *)
 (* injected failure it may also end as that failure, nothing changed.      *)
-MaxStoreOps(s, op) == 2 * Cardinality(StagedOf(s, op.tx)) + 1
+RECURSIVE RunStoppedAnywhere(_, _)
+RunStoppedAnywhere(c, how) ==
+  IF ~Running(c.run) THEN {c}
+  ELSE {Stop(c, how)} \cup UNION {RunStoppedAnywhere(d, how) : d \in Steps(c)}
+
 ExecAny(s, op, dev) ==
   IF op.k = 0 THEN Exec(s, op, dev)
-  ELSE UNION {Exec(s, [op EXCEPT !.k = i], dev) : i \in 1..(MaxStoreOps(s, op) + 1)}
-       \cup {Stop(c, op.how) : c \in {d \in Begin(s, op.kind, op.tx, dev) : ~Running(d.run)}}
+  ELSE LET begun == Begin(s, op.kind, op.tx, dev) IN
+       UNION {RunStoppedAnywhere(c, op.how) : c \in begun}
+       \cup {Stop(c, op.how) : c \in {d \in begun : ~Running(d.run)}}
 
 -----------------------------------------------------------------------------
 (* the statement, as predicates of a state *)
@@ -241,7 +255,7 @@ RECURSIVE WithBases(_, _)
 WithBases(s, bs) ==
   IF bs = {} THEN s
   ELSE LET b == CHOOSE x \in bs : TRUE IN
-       WithBases(PlainCommit(s, b, 100 + Len(s.commits)), bs \ {b})
+       WithBases(PlainCommit(s, b, 100 + NCommits(s.commits)), bs \ {b})
 
 MCInit ==
   /\ \E E \in SUBSET MCBranches :
@@ -251,12 +265,12 @@ MCInit ==
 
 AStage(tx, b) ==
   /\ Idle /\ StatusOf(st, tx) = "inprogress" /\ tx \notin st.tried /\ <<tx, b>> \notin DOMAIN st.staged
-  /\ st' = Stage(st, tx, b, 100 + Len(st.commits))
+  /\ st' = Stage(st, tx, b, 100 + NCommits(st.commits))
   /\ UNCHANGED <<run, budget>>
 
 APlain(b) ==
   /\ Idle /\ budget.plain > 0
-  /\ st' = PlainCommit(st, b, 100 + Len(st.commits))
+  /\ st' = PlainCommit(st, b, 100 + NCommits(st.commits))
   /\ budget' = [budget EXCEPT !.plain = @ - 1]
   /\ UNCHANGED run
 
@@ -298,8 +312,8 @@ NeverDuplicates == \A tx \in MCTxs : NoDuplicates(st, tx, MCBranches)
 (* the set computed by Exec is the set of states the actions reach: a run  *)
 (* that ended without an injected stop is one of Exec's outcomes           *)
 TypeOK == /\ run.res \in {"idle", "running", "ok", "err", "crashed"}
-          /\ \A b \in DOMAIN st.refs : st.refs[b] \in 1..Len(st.commits)
-          /\ \A k \in DOMAIN st.staged : st.staged[k] \in 1..Len(st.commits)
+          /\ \A b \in DOMAIN st.refs : st.refs[b] \in DOMAIN st.commits
+          /\ \A k \in DOMAIN st.staged : st.staged[k] \in DOMAIN st.commits
           /\ LogChained(st.logs)
 
 (* action properties *)
